@@ -409,7 +409,36 @@ class Reference:
                 run(ci, idx)
 
     def place_key(self, ci, idx):
-        return ev(self.p.classes[ci].place, self.p.idx_env(idx, self.G)) % self.ntd
+        # placement always uses a key of the shared read-only region of D (keys 0..ntd_ro-1)
+        return ev(self.p.classes[ci].place, self.p.idx_env(idx, self.G)) % self.p.ntd_ro
+
+    def ownership_tables(self, P):
+        """Rank tables for D and E that make every direct collection access of a task local to the task's rank
+        (PTG rule: a task may only name collection data of its own rank): unique keys are owned by the rank of the one
+        instance that uses them; the shared read-only region is only used for placement and READ defaults, so READ
+        defaults on several ranks make the table impossible -> returns None (the caller skips multi-rank for it)."""
+        p = self.p
+        dtab = [None] * self.ntd
+        etab = [0] * self.nte
+        for k in range(p.ntd_ro):
+            dtab[k] = self.rank_table[k] % P
+        for ci, cls in enumerate(p.classes):
+            for idx in self.spaces[ci]:
+                r = self.rank_of(ci, idx)
+                env = p.idx_env(idx, self.G)
+                for fl in cls.flows:
+                    if fl.access == "CTL":
+                        continue
+                    if fl.default_src and fl.default_src.startswith("D:") and not self.pred.get((ci, idx, fl.name)):
+                        k = ev(fl.default_src[2:], env) % self.ntd
+                        if k < p.ntd_ro:
+                            if dtab[k] != r:
+                                return None, None
+                        else:
+                            dtab[k] = r
+                    if fl.sink and (fl.sink_guard is None or ev(fl.sink_guard, env)):
+                        etab[ev(fl.sink[2:], env)] = r
+        return [0 if v is None else v for v in dtab], etab
 
     def rank_of(self, ci, idx):
         if not self.rank_table:
@@ -515,7 +544,7 @@ def emit_jdf(prog, name, opts):
         for (ln, le) in cls.locals:
             L.append("%s = %s" % (ln, le))
         L.append("")
-        L.append(": D( ((%s) %% NTD + NTD) %% NTD )" % subst(cls.place, i2p))
+        L.append(": D( ((%s) %% %d + %d) %% %d )" % (subst(cls.place, i2p), prog.ntd_ro, prog.ntd_ro, prog.ntd_ro))
         L.append("")
         for fi, fl in enumerate(cls.flows):
             lines = []
@@ -636,6 +665,7 @@ int main(int argc, char **argv)
     int ng = V[p++]; int *G = &V[p]; p += ng;
     int nexp = V[p++]; int *expected = &V[p]; p += nexp;
     int ntab = V[p++]; int *rank_table = &V[p]; p += ntab;
+    int netab = (p < nv) ? V[p++] : 0; int *erank_table = &V[p]; p += netab;
     char logpath[1024]; snprintf(logpath, sizeof logpath, "%s.%d", argv[2], rank);
     int pargc = 0; char **pargv = NULL;
     for( int i = 3; i < argc; i++ ) if( 0 == strcmp(argv[i], "--") ) { pargc = argc - i; pargv = argv + i; break; }
@@ -643,7 +673,7 @@ int main(int argc, char **argv)
     parsec_context_t *parsec = parsec_init(nthreads, &pargc, &pargv);
     if( NULL == parsec ) { fprintf(stderr, "parsec_init failed\n"); return 2; }
     parsec_data_collection_t *D = vs_dc_create("D", rank, world, NTD, TS, ntab ? rank_table : NULL, NULL, 1);
-    parsec_data_collection_t *E = vs_dc_create("E", rank, world, NTE, TS, NULL, NULL, 1);
+    parsec_data_collection_t *E = vs_dc_create("E", rank, world, NTE, TS, netab ? erank_table : NULL, NULL, 1);
     for( int k = 0; k < NTD; k++ ) vs_tile_set(vs_dc_tile(D, k), TS, (uint32_t)(1000 + 7 * k));
     for( int k = 0; k < NTE; k++ ) vs_tile_set(vs_dc_tile(E, k), TS, (uint32_t)(500000 + 3 * k));
     parsec_@NAME@_taskpool_t *tp = parsec_@NAME@_new(D, E, TS, NTD, NTE@GARGS@);
